@@ -48,36 +48,91 @@ Fixpoint strip_pat_go (marker : bytes) (skip : nat) (s : bytes) : bytes :=
 
 Definition strip_sp_pat (s : bytes) : bytes := strip_pat_go sp_marker 0 s.
 
+Fixpoint contains (s p : bytes) : bool :=
+  match s with
+  | [] => starts_with [] p
+  | _ :: r => starts_with s p || contains r p
+  end.
+
+(* a well-formed position value  D+ COLON D+ HYPHEN D+ COLON D+ QUOTE : its length, QUOTE included.
+   st = index of the number being read, seen = it has at least one digit *)
+Fixpoint sp_value_len (st : nat) (seen : bool) (s : bytes) : option nat :=
+  match s with
+  | [] => None
+  | b :: r =>
+    if is_digit b then match sp_value_len st true r with Some n => Some (S n) | None => None end
+    else if seen then
+      match st with
+      | 0 | 2 => if beqb b x3a then match sp_value_len (S st) false r with Some n => Some (S n) | None => None end else None
+      | 1 => if beqb b x2d then match sp_value_len 2 false r with Some n => Some (S n) | None => None end else None
+      | 3 => if beqb b x22 then Some 1 else None
+      | _ => None
+      end
+    else None
+  end.
+
+(* length of a complete well-formed  SP data-sourcepos EQ QUOTE L:C-L:C QUOTE  at the head of s *)
+Definition sp_attr_len (s : bytes) : option nat :=
+  if starts_with s sp_marker then
+    match sp_value_len 0 false (skipn (List.length sp_marker) s) with
+    | Some n => Some (List.length sp_marker + n)
+    | None => None
+    end
+  else None.
+
+(* `off` is `on` with some complete well-formed data-sourcepos attributes deleted and nothing else
+   changed.  Greedy: an attribute text that is also at the current position of `off` is kept (it is
+   the document's own), any other one is deleted.  Used when the option-off output carries the
+   marker text itself (raw HTML of the document passed through): there the deletion of EVERY
+   attribute would also delete the document's own. *)
+Fixpoint sp_del_go (skip : nat) (on off : bytes) : bool :=
+  match on with
+  | [] => match off, skip with [], O => true | _, _ => false end
+  | a :: on' =>
+    match skip with
+    | S k => sp_del_go k on' off
+    | O =>
+      let step :=
+        match off with
+        | b :: off' => if beqb a b then sp_del_go 0 on' off' else false
+        | [] => false
+        end in
+      match sp_attr_len on with
+      | Some len => if starts_with off (firstn len on) then step else sp_del_go (len - 1) on' off
+      | None => step
+      end
+    end
+  end.
+
+Definition sp_deleted (on off : bytes) : bool := sp_del_go 0 on off.
+
 (* the comparison the check makes on a pair (output with the option on, output with it off).
-   0  strip_sourcepos on = off                                  (lexer, the property as stated)
-   1  off itself carries a data-sourcepos attribute (it can only come from the document's own raw
-      HTML): the token-wise deletion also deletes that one; then  strip on = strip off  is required
-   2  mismatch (lexer)
-   3  off is in the output language but on is not, or a strip failed
-   4/5/6  the same as 0/1/2 with the lexer-free deletion, used when off is outside the strict
-      lexer's language (raw HTML passed through) *)
+   Both outputs in the strict lexer's language (always the case when no raw bytes of the document are
+   passed through):
+     0  off has no data-sourcepos attribute and  strip_sourcepos on = off      (the property as stated)
+     1  off itself has a data-sourcepos attribute (token level; it can only come from raw HTML of the
+        document passed through — the caller checks that): the token-wise deletion of EVERY attribute
+        also deletes that one; required instead:  sp_deleted on off  and  strip on = strip off
+     2  mismatch
+     3  off is in the language but on is not, or a strip failed
+   off outside the language (raw HTML of the document passed through):
+     4  off does not contain the marker text  SP data-sourcepos EQ QUOTE  and  strip_sp_pat on = off
+     5  off contains the marker text: sp_deleted on off
+     6  mismatch
+   Independently of the code, `sp_deleted on off` must hold for every pair. *)
 Definition html_sp_check (on off : bytes) : N :=
   (if relex_identity off then
      if relex_identity on then
        match strip_sourcepos on, strip_sourcepos off with
        | Some a, Some b =>
          if bytes_eqb b off then (if bytes_eqb a off then 0 else 2)
-         else (if bytes_eqb a b then 1 else 2)
+         else (if sp_deleted on off && bytes_eqb a b then 1 else 2)
        | _, _ => 3
        end
      else 3
    else
-     let a := strip_sp_pat on in
-     let b := strip_sp_pat off in
-     if bytes_eqb b off then (if bytes_eqb a off then 4 else 6)
-     else (if bytes_eqb a b then 5 else 6))%N.
-
-(* the lexer-free comparison alone: 0 equal, 1 excluded (off carries the marker itself), 2 mismatch *)
-Definition html_sp_pat_check (on off : bytes) : N :=
-  (let a := strip_sp_pat on in
-   let b := strip_sp_pat off in
-   if bytes_eqb b off then (if bytes_eqb a off then 0 else 2)
-   else (if bytes_eqb a b then 1 else 2))%N.
+     if contains off sp_marker then (if sp_deleted on off then 5 else 6)
+     else (if bytes_eqb (strip_sp_pat on) off then 4 else 6))%N.
 
 (* ------------------------------------------------------------------ XML, bytes *)
 Definition xsp_marker : bytes := Eval compute in B " sourcepos=""".
